@@ -178,7 +178,9 @@ def read_parquet(view: Any, path: str) -> List[Dict[str, Any]]:
     if raw is None:
         raise ReadError(f"data file missing: {path}")
     try:
-        return _pq.read_table(io.BytesIO(raw)).to_pylist()
+        # single-threaded: pyarrow's shared CPU pool has been seen to hang a to_table() call for good in a process
+        # that also runs many scheduler-controlled Python threads
+        return _pq.read_table(io.BytesIO(raw), use_threads=False).to_pylist()
     except Exception as e:
         raise ReadError(f"data file unparseable: {path}: {type(e).__name__}") from e
 
